@@ -59,7 +59,7 @@ def run(ctx):
     core.need_driver(ctx)
     im, mo = core.impl(), core.model()
     rng = ctx.rng
-    n_random = 25 if ctx.tier == "quick" else 600
+    n_random = 60 if ctx.tier == "quick" else 800
     oracle_fail, disagreements = [], []
     n_eval = n_lits = n_text_compared = 0
     nontrivial = set()
